@@ -195,7 +195,7 @@ func (s *Service) Multicast(info *pb.MulticastMsg, skip ...boson.Address) error 
 	origin := boson.NewAddress(info.Origin)
 
 	key := fmt.Sprintf("Multicast_%s_%d", origin, info.Id)
-	setOK, err := cache.SetIfNotExist(cacheCtx, key, 1, multicastMsgCache)
+	setOK, err := cacheSetIfNotExist(key, multicastMsgCache)
 	if err != nil {
 		return err
 	}
@@ -251,7 +251,7 @@ func (s *Service) onMulticast(ctx context.Context, peer p2p.Peer, stream p2p.Str
 	origin := boson.NewAddress(info.Origin)
 
 	key := fmt.Sprintf("onMulticast_%s_%d", origin, info.Id)
-	setOK, err := cache.SetIfNotExist(cacheCtx, key, 1, multicastMsgCache)
+	setOK, err := cacheSetIfNotExist(key, multicastMsgCache)
 	if err != nil {
 		return err
 	}
